@@ -81,8 +81,13 @@ def r1_inventory(ctx, cfg):
             n += 1
             cls = ENTRY_CLASSES.get(m["name"])
             seen.add(m["name"])
+            if cls is None and _touches_no_chain_state(cfg, m["key"]):
+                # a new `&mut self` method that reaches neither App.storage nor App.router mutably (e.g. a setter of
+                # the block or the api) cannot change chain state: no classification needed
+                cls = "auto:no-chain-state"
             ctx.ob("C01.R1", m["key"], "classified", cls is not None,
-                   "`&mut self` method %s of App is not classified (a new way to change chain state needs a decision)" % m["name"],
+                   "`&mut self` method %s of App reaches App.storage / App.router and is not classified "
+                   "(a new way to change chain state needs a decision)" % m["name"],
                    fn=F.fn(m["key"]), sample="class=%s" % cls)
     ctx.floor("C01.R1", "&mut self methods of App", n, 15)
     for name, cls in ENTRY_CLASSES.items():
@@ -137,6 +142,29 @@ def r1_inventory(ctx, cfg):
         ctx.ob("C01.R1", key, "only-process_queue", ok,
                "block update may hand storage only to Staking::process_queue, found %s" % st_calls, fn=f,
                sample="storage handed to %s" % st_calls)
+
+
+def _touches_no_chain_state(cfg, key):
+    """the method (with its closures) never names App.storage or App.router, hands `self` to nobody and passes no
+    storage-typed argument to any callee"""
+    F, P = cfg.facts, cfg.prov
+    f = F.fn(key)
+    if f is None:
+        return False
+    for g in F.lexical(key):
+        for bid, i, st in g.stmts():
+            if _mentions_field(st, "storage", APP) or _mentions_field(st, "router", APP):
+                return False
+        for bid, t in g.calls():
+            for a in t["args"]:
+                if a["k"] in ("copy", "move") and (_place_mentions_field(a["place"], "storage", APP) or _place_mentions_field(a["place"], "router", APP)):
+                    return False
+            if any(q.is_storage_ty(ty) for ty in t["callee"].get("inputs", [])):
+                return False
+            for a in P.call_args(g, t, bid):
+                if is_param(a, "self"):
+                    return False
+    return True
 
 
 def _place_mentions_field(pl, name, of):
